@@ -56,9 +56,13 @@ enum Op {
     R,
     /// externally rename the file of the additional file writer `X` (fan-out of reopen_output)
     ExtRenameX,
+    /// reopen_output while the first re-open it attempts fails (injected at the guarded `reopen`
+    /// point): documented as "all of them will be attempted to be re-opened; only the first error
+    /// will be reported" - the other writer must be switched nevertheless
+    ReopenFault,
 }
 fn alphabet() -> Vec<Op> {
-    vec![Op::W(5), Op::W(80), Op::F, Op::ExtRename, Op::ExtRemove, Op::Reopen, Op::ResetBase, Op::ResetDir, Op::ResetRot, Op::R, Op::ExtRenameX]
+    vec![Op::W(5), Op::W(80), Op::F, Op::ExtRename, Op::ExtRemove, Op::Reopen, Op::ResetBase, Op::ResetDir, Op::ResetRot, Op::R, Op::ExtRenameX, Op::ReopenFault]
 }
 fn modes() -> Vec<ModeK> {
     vec![ModeK::Direct, ModeK::BufDont(64), ModeK::BufFlush(64, 3_600_000)]
@@ -75,10 +79,10 @@ fn depth(tier: &str) -> usize {
 }
 // unit = (mode, rot, first letter)
 fn units(_tier: &str) -> usize {
-    modes().len() * rots().len() * alphabet().len()
+    2 * modes().len() * rots().len() * alphabet().len()
 }
 fn bounds(tier: &str) -> Value {
-    json!({"depth": depth(tier), "alphabet": format!("{:?}", alphabet()), "modes": modes().len(), "rotation_configs": rots().len()})
+    json!({"depth": depth(tier), "alphabet": format!("{:?}", alphabet()), "modes": modes().len(), "rotation_configs": rots().len(), "append": "both"})
 }
 
 // ---------------------------------------------------------------- model
@@ -109,13 +113,13 @@ struct Model {
     side: usize,
 }
 
-fn cfg_for(mode: ModeK, fam: &FamKey) -> Cfg {
+fn cfg_for(mode: ModeK, fam: &FamKey, append: bool) -> Cfg {
     let mut cfg = match fam.rot {
         None => Cfg::norot(),
         Some(n) => Cfg::rot(CritK::Size(1_000_000), n, CleanK::Never),
     };
     cfg.mode = mode;
-    cfg.append = true;
+    cfg.append = append;
     cfg.parts = NameParts {
         basename: Some(fam.base.clone()),
         discriminant: None,
@@ -144,7 +148,7 @@ impl Model {
                 // TimestampsDirect with append: the newest existing file of the family, else a
                 // file named after the (frozen) instant
                 let _ = files_on_disk;
-                let parts = cfg_for(ModeK::Direct, f).parts;
+                let parts = cfg_for(ModeK::Direct, f, true).parts;
                 let scan = family::scan(&f.dir, &parts, None, Some(nk), &[]);
                 match scan.members.last() {
                     Some(mbr) => f.dir.join(&mbr.name),
@@ -165,7 +169,7 @@ fn exists(p: &Path) -> bool {
     std::fs::symlink_metadata(p).is_ok()
 }
 
-fn run_word(mode: ModeK, rot: Option<NamingK>, word: &[Op]) -> Result<(Vec<usize>, bool), Fail> {
+fn run_word(mode: ModeK, rot: Option<NamingK>, append: bool, word: &[Op]) -> Result<(Vec<usize>, bool), Fail> {
     let env = Env::new("c18");
     env.enter();
     let fam0 = FamKey {
@@ -173,7 +177,7 @@ fn run_word(mode: ModeK, rot: Option<NamingK>, word: &[Op]) -> Result<(Vec<usize
         base: "app".into(),
         rot,
     };
-    let cfg0 = cfg_for(mode, &fam0);
+    let cfg0 = cfg_for(mode, &fam0, append);
     // an additional file writer X with its own file: reopen_output must reach it, too
     let xdir = env.dir.join("xdir");
     let xw = flexi_logger::writers::FileLogWriter::builder(flexi_logger::FileSpec::default().directory(&xdir).basename("x").suppress_timestamp())
@@ -210,17 +214,41 @@ fn run_word(mode: ModeK, rot: Option<NamingK>, word: &[Op]) -> Result<(Vec<usize
         match *op {
             Op::W(len) => {
                 // lazy initialisation at the first write after start / reset
-                if m.cur.is_none() {
+                let mut read_off: Option<Vec<String>> = None;
+                if m.cur.is_none() && !append && matches!(m.fam.rot, Some(NamingK::TimestampsDirect)) {
+                    // without append a timestamp-named family starts a new file whose name (with a
+                    // restart infix if needed) is read off the directory after the write
+                    read_off = Some(family::list_names(&m.fam.dir));
+                } else if m.cur.is_none() {
                     let p = m.initial_path(&exists);
-                    // appending: continue an existing physical file at that path, else a new one
-                    let idx = m.files.iter().position(|f| f.path.as_deref() == Some(&p));
-                    let idx = idx.unwrap_or_else(|| {
-                        m.files.push(PFile {
-                            path: Some(p.clone()),
-                            lines: Vec::new(),
-                        });
-                        m.files.len() - 1
-                    });
+                    let at_path = m.files.iter().position(|f| f.path.as_deref() == Some(&p));
+                    let idx = match (at_path, append, m.fam.rot) {
+                        // appending: continue an existing physical file at that path
+                        (Some(idx), true, _) => idx,
+                        // not rotating, no append: the documented truncation of the file at the path
+                        (Some(idx), false, None) => {
+                            m.files[idx].lines.clear();
+                            idx
+                        }
+                        // rotating with numbers, no append: the earlier rCURRENT becomes a rotated file
+                        (Some(idx), false, Some(_)) => {
+                            let n = m.counters.get(&m.fam).copied().unwrap_or(0);
+                            m.files[idx].path = Some(m.fam.dir.join(format!("{}_r{n:05}.log", m.fam.base)));
+                            m.counters.insert(m.fam.clone(), n + 1);
+                            m.files.push(PFile {
+                                path: Some(p.clone()),
+                                lines: Vec::new(),
+                            });
+                            m.files.len() - 1
+                        }
+                        (None, _, _) => {
+                            m.files.push(PFile {
+                                path: Some(p.clone()),
+                                lines: Vec::new(),
+                            });
+                            m.files.len() - 1
+                        }
+                    };
                     m.cur = Some(idx);
                     m.cur_path = Some(p);
                     if matches!(m.fam.rot, Some(NamingK::TimestampsDirect)) && !m.counters.contains_key(&m.fam) {
@@ -231,8 +259,28 @@ fn run_word(mode: ModeK, rot: Option<NamingK>, word: &[Op]) -> Result<(Vec<usize
                 seq += 1;
                 let mut line = msg.clone().into_bytes();
                 line.push(b'\n');
-                m.files[m.cur.unwrap()].lines.push(line);
+                if read_off.is_none() {
+                    m.files[m.cur.unwrap()].lines.push(line.clone());
+                }
                 lg::log_info(&*logger, &msg);
+                if let Some(before) = read_off {
+                    let after = family::list_names(&m.fam.dir);
+                    let new: Vec<&String> = after.iter().filter(|n| !before.contains(n) && n.starts_with(&format!("{}_", m.fam.base))).collect();
+                    if new.len() != 1 {
+                        return Err(Fail {
+                            clause: "start-effect",
+                            at: i,
+                            detail: format!("the first write of a non-appending timestamp family created {} new files: {new:?}", new.len()),
+                        });
+                    }
+                    let np = m.fam.dir.join(new[0]);
+                    m.files.push(PFile {
+                        path: Some(np.clone()),
+                        lines: vec![line],
+                    });
+                    m.cur = Some(m.files.len() - 1);
+                    m.cur_path = Some(np);
+                }
                 // and one record for X only
                 let xm = format!("x{seq}");
                 xfiles[xcur].1.extend(xm.as_bytes());
@@ -285,21 +333,60 @@ fn run_word(mode: ModeK, rot: Option<NamingK>, word: &[Op]) -> Result<(Vec<usize
                     xfiles[xcur].0 = to;
                 }
             }
-            Op::Reopen => {
+            Op::Reopen | Op::ReopenFault => {
+                let faulty = *op == Op::ReopenFault;
+                let hits_before = {
+                    let mut g = env.ctx.fs.lock().unwrap();
+                    g.enabled = true;
+                    let n = g.counts.get("reopen").copied().unwrap_or(0);
+                    if faulty {
+                        g.faults = vec![crate::hooks::FaultSpec {
+                            site: "reopen".into(),
+                            first_occ: n,
+                            burst: 1,
+                        }];
+                    }
+                    g.trace.len()
+                };
+                let r = handle.reopen_output();
+                // which re-open failed (if any was attempted at all)?
+                let failed_path: Option<PathBuf> = {
+                    let mut g = env.ctx.fs.lock().unwrap();
+                    g.faults.clear();
+                    let hit = g.trace[hits_before..].iter().find(|(site, _, _)| *site == "reopen").map(|(_, _, p)| p.clone());
+                    if faulty {
+                        hit
+                    } else {
+                        None
+                    }
+                };
+                match (&r, &failed_path) {
+                    (Err(e), None) => {
+                        return Err(Fail {
+                            clause: "reopen-error",
+                            at: i,
+                            detail: e.to_string(),
+                        })
+                    }
+                    (Ok(()), Some(p)) => {
+                        return Err(Fail {
+                            clause: "reopen-failure-unreported",
+                            at: i,
+                            detail: format!("re-opening {} failed (injected) but reopen_output returned Ok", p.display()),
+                        })
+                    }
+                    _ => {}
+                }
+                let x_failed = failed_path.as_deref() == Some(xpath.as_path());
+                let main_failed = failed_path.is_some() && !x_failed;
                 // the additional writer is re-opened, too: a new file at its path if it was moved
-                if xfiles[xcur].0 != xpath {
+                if !x_failed && xfiles[xcur].0 != xpath {
                     xfiles.push((xpath.clone(), Vec::new()));
                     xcur = xfiles.len() - 1;
                 }
-                let r = handle.reopen_output();
-                if let Err(e) = r {
-                    return Err(Fail {
-                        clause: "reopen-error",
-                        at: i,
-                        detail: e.to_string(),
-                    });
-                }
-                if let Some(p) = m.cur_path.clone() {
+                if main_failed {
+                    // the failed writer keeps writing to the file it has open
+                } else if let Some(p) = m.cur_path.clone() {
                     // a new (or the same, if it still exists) file at the original path
                     let idx = m.files.iter().position(|f| f.path.as_deref() == Some(&p));
                     let idx = idx.unwrap_or_else(|| {
@@ -377,7 +464,7 @@ fn run_word(mode: ModeK, rot: Option<NamingK>, word: &[Op]) -> Result<(Vec<usize
                         }
                     }
                 }
-                let cfg = cfg_for(mode, &fam);
+                let cfg = cfg_for(mode, &fam, append);
                 let b = cfg.flw_builder(&fam.dir).write_mode(cfg.mode.write_mode().clone());
                 // the Logger strips the flush interval from the write mode of its file writer
                 let b = match mode {
@@ -452,34 +539,35 @@ fn run_word(mode: ModeK, rot: Option<NamingK>, word: &[Op]) -> Result<(Vec<usize
     Ok((shape, interesting.0 && interesting.1 && interesting.2))
 }
 
-fn cause(mode: ModeK, rot: Option<NamingK>, word: &[Op], at: usize) -> String {
+fn cause(mode: ModeK, rot: Option<NamingK>, append: bool, word: &[Op], at: usize) -> String {
     // the last switching operation before the divergence
     let sw = word[..at.min(word.len())]
         .iter()
         .rev()
-        .find(|o| matches!(o, Op::Reopen | Op::ResetBase | Op::ResetDir | Op::ResetRot | Op::R | Op::ExtRename | Op::ExtRemove | Op::ExtRenameX))
+        .find(|o| matches!(o, Op::Reopen | Op::ReopenFault | Op::ResetBase | Op::ResetDir | Op::ResetRot | Op::R | Op::ExtRename | Op::ExtRemove | Op::ExtRenameX))
         .map_or("-".to_string(), |o| format!("{o:?}"));
-    format!("{sw}/{}/{}", super::c08::mode_class(mode), rot.map_or("no-rotation", |n| n.short()))
+    format!("{sw}/{}/{}{}", super::c08::mode_class(mode), rot.map_or("no-rotation", |n| n.short()), if append { "" } else { "/no-append" })
 }
 
-fn judge(mode: ModeK, rot: Option<NamingK>, word: &[Op], case: Value) -> (Option<Violation>, Option<(Vec<usize>, bool)>) {
+fn judge(mode: ModeK, rot: Option<NamingK>, append: bool, word: &[Op], case: Value) -> (Option<Violation>, Option<(Vec<usize>, bool)>) {
     let ww = word.to_vec();
-    match run_isolated(Duration::from_secs(30), move || run_word(mode, rot, &ww)) {
+    match run_isolated(Duration::from_secs(30), move || run_word(mode, rot, append, &ww)) {
         Ran::Done(Ok(x)) => (None, Some(x)),
-        Ran::Done(Err(f)) => (Some(Violation::new(f.clause, cause(mode, rot, word, f.at), format!("mode={mode:?} rotation={rot:?}\n  word={word:?}\n  at op {}: {}", f.at, f.detail), case)), None),
-        Ran::Panicked(m) => (Some(Violation::new("panic", cause(mode, rot, word, word.len()), format!("mode={mode:?} rotation={rot:?} word={word:?}: {m}"), case)), None),
-        Ran::Hung => (Some(Violation::new("hang", cause(mode, rot, word, word.len()), format!("mode={mode:?} rotation={rot:?} word={word:?}"), case)), None),
+        Ran::Done(Err(f)) => (Some(Violation::new(f.clause, cause(mode, rot, append, word, f.at), format!("mode={mode:?} rotation={rot:?} append={append}\n  word={word:?}\n  at op {}: {}", f.at, f.detail), case)), None),
+        Ran::Panicked(m) => (Some(Violation::new("panic", cause(mode, rot, append, word, word.len()), format!("mode={mode:?} rotation={rot:?} word={word:?}: {m}"), case)), None),
+        Ran::Hung => (Some(Violation::new("hang", cause(mode, rot, append, word, word.len()), format!("mode={mode:?} rotation={rot:?} word={word:?}"), case)), None),
     }
 }
 
-fn decode(unit: usize) -> (ModeK, Option<NamingK>, usize) {
+fn decode(unit: usize) -> (ModeK, Option<NamingK>, bool, usize) {
     let a = alphabet().len();
     let r = rots().len();
-    (modes()[unit / (a * r)], rots()[(unit / a) % r], unit % a)
+    let m = modes().len();
+    (modes()[(unit / (a * r)) % m], rots()[(unit / a) % r], unit / (a * r * m) == 0, unit % a)
 }
 
 fn run_unit(tier: &str, unit: usize, out: &mut Out) {
-    let (mode, rot, first) = decode(unit);
+    let (mode, rot, append, first) = decode(unit);
     let alpha = alphabet();
     let d = depth(tier);
     for_each_word(alpha.len(), d - 1, |rest| {
@@ -491,7 +579,7 @@ fn run_unit(tier: &str, unit: usize, out: &mut Out) {
             return;
         }
         let case = json!({"unit": unit, "word": w});
-        let (v, r) = judge(mode, rot, &word, case.clone());
+        let (v, r) = judge(mode, rot, append, &word, case.clone());
         out.evaluations += 1;
         out.traces_validated += 1;
         out.transitions += word.len() as u64 + 1;
@@ -506,7 +594,7 @@ fn run_unit(tier: &str, unit: usize, out: &mut Out) {
             }
         }
         if let Some(v) = v {
-            let (v2, _) = judge(mode, rot, &word, case);
+            let (v2, _) = judge(mode, rot, append, &word, case);
             match v2 {
                 Some(v2) if v2.key() == v.key() => out.violation(v),
                 _ => out.violation(Violation::new("nondeterministic", "replay-diverged", v.detail.clone(), v.case.clone())),
@@ -518,10 +606,10 @@ fn run_unit(tier: &str, unit: usize, out: &mut Out) {
 
 fn replay(case: &Value) -> Vec<Violation> {
     let unit = case["unit"].as_u64().unwrap_or(0) as usize;
-    let (mode, rot, _) = decode(unit);
+    let (mode, rot, append, _) = decode(unit);
     let alpha = alphabet();
     let w: Vec<usize> = case["word"].as_array().into_iter().flatten().filter_map(|x| x.as_u64().map(|n| n as usize)).collect();
     let word: Vec<Op> = w.iter().filter_map(|i| alpha.get(*i).copied()).collect();
-    println!("replay C18: mode={mode:?} rotation={rot:?} word={word:?}");
-    judge(mode, rot, &word, case.clone()).0.into_iter().collect()
+    println!("replay C18: mode={mode:?} rotation={rot:?} append={append} word={word:?}");
+    judge(mode, rot, append, &word, case.clone()).0.into_iter().collect()
 }
